@@ -65,7 +65,8 @@ package archiver
 //@   after SetStatus(item)#2: gaveUp = 1
 //@   ensures [giveup-closed] @C16 gaveUp == 1 ==> http.nOpened() - io.nCloses() == old(http.nOpened() - io.nCloses()) // C16: a fetch that gives up (request error or bad answers until the retries are used up) leaves no response body open
 //@   ensures [giveup-drained] @C02 gaveUp == 1 ==> io.nDrains() - http.nOpened() == old(io.nDrains() - http.nOpened()) // C02: every response the crawler fetched is stored complete (the last bad answer of a fetch that gives up is read to its end before its body is closed)
-//@   attr own-var @C02 feedbackChan
+//@   attr own-var @C02 @C04 feedbackChan
+//@   assert recv(feedbackChan)#1: [own-channel] @C04 feedbackChan == sentWith && feedbackChan != nil // C04: no URL is reported finished unless it was captured (the fetch waits for the WARC writer on its own request's channel; C02 has the full set of clauses)
 //@   local attached chan struct{} = nil
 //@   local sentWith chan struct{} = nil
 //@   assert WithValue(*): [attaches-own] @C02 istype(arg2, chan struct{}) && unbox(arg2, chan struct{}) == feedbackChan && istype(arg1, string) && unbox(arg1, string) == "feedback" // C02: feedback channel in request context (the channel this fetch will wait on is the one put into its request's context under the key the WARC writer looks up)
@@ -76,7 +77,7 @@ package archiver
 //@   ensures [outcome-recorded] @C01 item.status == models.ItemArchived || item.status == models.ItemFailed // C01: every URL in its tree has been fetched, skipped or has failed for good (every fetch ends with its node archived or failed)
 //@   local fbWaited int = 0
 //@   after recv(feedbackChan)#1: fbWaited = 1
-//@   assert SetStatus(item)#4: [after-feedback] @C02 config.config.WARCWriteAsync || fbWaited == 1 // C02: with synchronous WARC writing the URL is marked archived only after the WARC writer signalled that the records are written
+//@   assert SetStatus(item)#4: [after-feedback] @C02,C04 config.config.WARCWriteAsync || fbWaited == 1 // C02: with synchronous WARC writing the URL is marked archived only after the WARC writer signalled that the records are written
 //@   ensures [retry-bound] attempts <= old(attempts) + old(config.config.MaxRetry) + 1 // C06: each URL is attempted at most --max-retry + 1 times per visit
 //@   ensures [attempted] attempts >= old(attempts) + 1
 
